@@ -741,7 +741,10 @@ def predict_float_fold(op, lt, rt, a, b):
                 neg = (p < 0) != (math.copysign(1.0, q) < 0)
                 return float("-inf") if neg else float("inf")
             return p / q
-        if op in ("tdiv", "tmod") and not lt.startswith("float") and x == int(x) and y == int(y) and y != 0 and abs(x) != float("inf") and abs(y) != float("inf"):
+        if op == "tdiv" and not lt.startswith("float") and y == 0 and x == x:
+            # IntegralType.tdiv: `if bn.iszero(b) then return bn.tonumber(a) / 0 end` - the sign of a zero divisor is dropped
+            v = float("nan") if x == 0 else (float("inf") if x > 0 else float("-inf"))
+        elif op in ("tdiv", "tmod") and not lt.startswith("float") and x == int(x) and y == int(y) and y != 0 and abs(x) != float("inf") and abs(y) != float("inf"):
             # IntegralType.tdiv/tmod -> bint.tdivmod: integer-valued float operands are computed as big integers
             ia, ib = int(x), int(y)
             q = abs(ia) // abs(ib)
@@ -783,10 +786,12 @@ def float_key(op, lt, rt, a, b, const_val, text):
     """Key of a float divergence: designated witnesses by exact input; otherwise a key naming the code
     site, operator and operand types, and only when the baked constant is what the unchanged code is
     predicted to bake (float32 folded in double precision / sign of zero of %%%); else the exact input."""
-    if (op, lt, rt, a, b) in FLOAT_WITNESSES:
+    if (op, lt, rt, repr(a), repr(b)) in [(w[0], w[1], w[2], repr(w[3]), repr(w[4])) for w in FLOAT_WITNESSES]:
         return "case:float:" + text
     pred = predict_float_fold(op, lt, rt, a, b)
     same = pred is not None and const_val is not None and (pred == const_val or (pred != pred and const_val != const_val))
+    if same and op == "tdiv" and not lt.startswith("float") and isinstance(b, float) and b == 0:
+        return "types.lua:IntegralType.tdiv:sign-of-zero-divisor-dropped:%s:%s" % (lt, rt)
     if same and op in ("tdiv", "tmod") and not lt.startswith("float") and const_val == 0:
         return "types.lua:IntegralType.%s:integer-valued-float-operands-lose-sign-of-zero:%s:%s" % (op, lt, rt)
     if same and "float32" in (lt, rt or ""):
@@ -798,7 +803,8 @@ def float_key(op, lt, rt, a, b, const_val, text):
 
 FLOAT_WITNESSES = [("tdiv", "int32", "float32", -7, _f32(0.1)), ("sub", "float32", "int8", _f32(1 / 3.0), 1),
                    ("tmod", "float64", "int8", -0.0, -128), ("pow", "float32", "int32", -2.5, 2147483647),
-                   ("tmod", "int32", "float64", -7, -1.0), ("tdiv", "uint8", "float64", 255, -9223372036854775807)]
+                   ("tmod", "int32", "float64", -7, -1.0), ("tdiv", "uint8", "float64", 255, -9223372036854775807),
+                   ("tdiv", "uint8", "float32", 1, -0.0)]
 # witnesses of the float defects repaired by 5e677f6 (must pass)
 FLOAT_FIXED_WITNESSES = [("idiv", "float64", "uint8", 4, 0), ("add", "float64", "float64", 9223372036854775807, 1),
                          ("tdiv", "float64", "float64", -1.0, 2.0), ("mul", "float64", "float64", 4611686018427387904, 4)]
